@@ -324,8 +324,22 @@ func c16Run(r *Run) {
 				}
 				return true
 			})
+			ifaceOK := false
+			if asserted == "" {
+				// v.(I): an interface the registered node type implements
+				ast.Inspect(e.h.Body, func(n ast.Node) bool {
+					if ta, ok := n.(*ast.TypeAssertExpr); ok && ta.Type != nil {
+						if it, ok := info.TypeOf(ta.Type).Underlying().(*types.Interface); ok && types.Implements(types.NewPointer(e.t), it) {
+							ifaceOK = true
+						}
+					}
+					return true
+				})
+			}
 			if asserted == tn {
 				r.ok(key, e.pos, "handler asserts the type it is registered for")
+			} else if ifaceOK {
+				r.ok(key, e.pos, "handler asserts an interface that the registered node type implements")
 			} else {
 				r.bad(key, e.pos, "registered for "+tn+" but asserts "+asserted)
 			}
@@ -353,6 +367,53 @@ func c16Run(r *Run) {
 				}
 				return true
 			})
+			// v.(I).M(): the accessor methods of the registered type stand for the fields they read
+			ifaceReads := map[string]bool{}
+			ast.Inspect(e.h.Body, func(n ast.Node) bool {
+				c, ok := n.(*ast.CallExpr)
+				if !ok {
+					return true
+				}
+				se, ok := ast.Unparen(c.Fun).(*ast.SelectorExpr)
+				if !ok {
+					return true
+				}
+				ta, ok := ast.Unparen(se.X).(*ast.TypeAssertExpr)
+				if !ok || ta.Type == nil {
+					return true
+				}
+				if _, isIface := info.TypeOf(ta.Type).Underlying().(*types.Interface); !isIface {
+					return true
+				}
+				if obj, _, _ := types.LookupFieldOrMethod(types.NewPointer(e.t), true, e.t.Obj().Pkg(), se.Sel.Name); obj != nil {
+					if m, ok := obj.(*types.Func); ok {
+						for fld := range methodReads(r, m) {
+							ifaceReads[fld] = true
+						}
+					}
+				}
+				return true
+			})
+			if len(ifaceReads) > 0 && !direct {
+				var missing []string
+				for i := 0; i < st.NumFields(); i++ {
+					f := st.Field(i)
+					if (f.Embedded() && f.Name() == "Node") || reflect.StructTag(st.Tag(i)).Get("pp") == "-" || ifaceReads[f.Name()] {
+						continue
+					}
+					missing = append(missing, f.Name())
+				}
+				sort.Strings(missing)
+				k2 := "cmd/compile." + e.h.Name.Name + "#reads-fields:" + tn
+				if len(missing) == 0 {
+					r.ok(k2, e.h.Pos(), "every content field of the node type is read by its handler (through accessor methods)")
+				} else {
+					for _, m := range missing {
+						r.bad(k2+"."+m, e.h.Pos(), "field "+m+" of "+tn+" is never read by its special handler: whatever the parser stored there is silently absent from the compiled program")
+					}
+				}
+				continue
+			}
 			if direct {
 				r.ok("cmd/compile."+e.h.Name.Name+"#reads-fields:"+tn, e.h.Pos(), "the node is handed whole to a helper (counted as fully read)")
 			} else {
